@@ -3,6 +3,7 @@
 from collections.abc import Sequence
 
 from .utils import Identification, Unidentifiable
+from ... import _verif
 from ...dsl import Expression, Fraction, P, Probability, Product, Sum, Variable
 from ...graph import NxMixedGraph
 
@@ -28,22 +29,26 @@ def identify(identification: Identification) -> Expression:
 
     # line 1
     if not treatments:
+        _verif.trace("id", line=1, x=treatments, y=outcomes, v=vertices)
         return line_1(identification)
 
     # line 2
     outcomes_and_ancestors = graph.ancestors_inclusive(outcomes)
     not_outcomes_or_ancestors = vertices.difference(outcomes_and_ancestors)
     if not_outcomes_or_ancestors:
+        _verif.trace("id", line=2, x=treatments, y=outcomes, v=vertices)
         return identify(line_2(identification))
 
     # line 3
     no_effect_on_outcome = graph.get_no_effect_on_outcomes(treatments, outcomes)
     if no_effect_on_outcome:
+        _verif.trace("id", line=3, x=treatments, y=outcomes, v=vertices)
         return identify(line_3(identification))
 
     # line 4
     graph_without_treatments = graph.remove_nodes_from(treatments)
     if not graph_without_treatments.is_connected():
+        _verif.trace("id", line=4, x=treatments, y=outcomes, v=vertices)
         expression = Product.safe(map(identify, line_4(identification)))
         return Sum.safe(
             expression=expression,
@@ -52,12 +57,14 @@ def identify(identification: Identification) -> Expression:
 
     # line 5
     if graph.is_connected():  # e.g., there's only 1 c-component, and it encompasses all vertices
+        _verif.trace("id", line=5, x=treatments, y=outcomes, v=vertices)
         raise Unidentifiable(graph.nodes(), graph_without_treatments.districts())
 
     # line 6
     district_without_treatment = _get_single_district(graph_without_treatments)
 
     if district_without_treatment in graph.districts():
+        _verif.trace("id", line=6, x=treatments, y=outcomes, v=vertices)
         parents = list(graph.topological_sort())
         expression = Product.safe(
             _p_parents_in(identification.estimand, v, parents) for v in district_without_treatment
@@ -69,6 +76,7 @@ def identify(identification: Identification) -> Expression:
         )
 
     # line 7
+    _verif.trace("id", line=7, x=treatments, y=outcomes, v=vertices)
     return identify(line_7(identification))
 
 
